@@ -65,8 +65,8 @@ MANIFEST_ENTRY = {
         "deviations of the injection semantics are open ledger entries."),
     "technique": "Lean 4 proof (case analysis over codec kinds + decide over the generated registry table; induction over request sequences; fuel bounds) + model/implementation correspondence + seeded exploration (HTTP and MP4 fuzzing) against the property oracle",
 }
-PROP_FILES = ["DashLive/Props/C16.lean"]
-LEAN_TARGETS = ["DashLive.Props.C16"]
+PROP_FILES = ["DashLive/Props/C16.lean", "DashLive/Props/GenTie.lean"]
+LEAN_TARGETS = ["DashLive.Props.C16", "DashLive.Props.GenTie"]
 
 
 def _gen_options():
@@ -79,8 +79,17 @@ def _gen_parser_loops():
     gen_parser_loops.main()
 
 
-GENERATORS = [_gen_options, _gen_parser_loops]
+def _gen_arith():
+    """Gen/Arith.lean: `Representation.get_segment_index` (with its `while` search loop) translated from /repo's
+    source text; Props/GenTie.lean (`tie_getSegmentIndex`) proves the translation equal to the model with the loop
+    bound `number of segments + 1` - which holds because the origin is computed with integer floor division"""
+    import gen_arith
+    gen_arith.main()
+
+
+GENERATORS = [_gen_options, _gen_parser_loops, _gen_arith]
 TRUSTED = [
+    "harness/gen_arith.py + pytolean.py (Python source text of Representation.get_segment_index -> Gen/Arith.lean, semantics of the accepted subset; float division is outside the subset and reported as a broken translator obligation); Props/GenTie.lean proves the translation equal to the model with the loop bound segments + 1",
     "harness/gen_options.py (registry table; codec kind assigned from the identity of the registered callables)",
     "C19's model of from_isodatetime (Model/IsoText.lean) as the driver's date-time classifier; texts it does not model (no 'T', no leading 'P') are compared by the oracle only",
     "Flask's got_request_exception signal is used to label a 500 with its exception type (grouping and reports only)",
@@ -834,7 +843,7 @@ class HttpFuzz:
         if body:
             res = self.run_body(method, url, who, headers, body)
         else:
-            res = H.run(self.clients[who], method, url, headers)
+            res = H.run(self.clients[who], method, url, headers, limit=getattr(self, "_limit", H.TIME_LIMIT))
         sh = self.S.shallow()
         if sh != self._shallow:
             self._shallow = sh
@@ -1275,6 +1284,66 @@ class HttpFuzz:
                     m.db.session.commit()
             self.clients = saved
 
+    PATH_BUDGET = 6.0        # seconds per request of the path-integer grid (the clean tree answers in milliseconds)
+
+    def path_integers(self):
+        """every route that takes an integer from the PATH ($Number$ and $Time$ on /dash and /mps, live and vod;
+        the publish time of a patch; primary keys of streams, files, keys, periods), every other component valid,
+        with a fixed list of huge values: 2^53 -+ 1, 2^63 -+ 1, 2^64, 10^30+77, 3*10^33+77, k*10^33+odd for seven k
+        (so that a float quotient rounds down for some and up for others), 10^60+1, a 4300-digit and a 4301-digit
+        number - each request under a wall-clock budget enforced by the watchdog (interval timer raising a
+        BaseException inside the request, plus the memory-growth limit).  Oracle: an answer < 500 within the budget."""
+        import random
+        H = self.H
+        rng = random.Random("c16:path-integers")           # fixed: the grid does not depend on the seed
+        self._limit = self.PATH_BUDGET
+        hung, timeouts = set(), 0
+        media = ("dash-media", "dash-media-by-time", "mps-media-seg-by-number", "mps-media-seg-by-time", "mps-init-seg",
+                 "dash-od-media", "mpd-patch")
+        mps_forces = []
+        for mps in [m for m in self.P["mps"] if m == "c16mps"] or self.P["mps"][:1]:
+            for ppk in (self.P["ppks"].get(mps) or [])[:3]:
+                files = self.P["pfiles"].get(ppk) or []
+                if files:
+                    mps_forces.append({"mps_name": mps, "ppk": ppk, "filename": files[0]})
+        dash_forces = [{"stream": "bbb", "filename": "bbb_v7", "manifest": "hand_made"},
+                       {"stream": "bbb", "filename": "bbb_a1", "manifest": "hand_made"}]
+        try:
+            for rule in self.rules:
+                names = H.int_args(rule)
+                if not names:
+                    continue
+                heavy = rule.endpoint in media
+                rx = getattr(rule._converters.get("mode"), "regex", "") if "mode" in rule._converters else ""
+                modes = [m for m in ("live", "vod", "odvod") if m in rx] or [None]
+                forces = (mps_forces if rule.endpoint.startswith("mps-") else dash_forces) if heavy else [{}]
+                for name in names:
+                    for force in forces or [{}]:
+                        for mode in (modes if heavy else modes[:1]):
+                            f = dict(force, **({"mode": mode} if mode else {}))
+                            f[name] = str(H.PATH_SENTINEL) if isinstance(rule._converters[name], type(None)) else H.PATH_SENTINEL
+                            path = H.fill_rule(rule, self.P, rng, True, force=f)
+                            if path is None or str(H.PATH_SENTINEL) not in path:
+                                # (RegexConverter takes text)
+                                f[name] = str(H.PATH_SENTINEL)
+                                path = H.fill_rule(rule, self.P, rng, True, force=f)
+                                if path is None or str(H.PATH_SENTINEL) not in path:
+                                    continue
+                            vals = H.PATH_INTS if (heavy or self.ctx.thorough) else H.PATH_INTS_SHORT
+                            for v in vals:
+                                if (rule.endpoint, name) in hung or timeouts >= 8:
+                                    self.ch.count("path-int: skipped after a request that did not finish")
+                                    continue
+                                who = "media" if rule.endpoint not in HEAVY else "anon"
+                                res = self.one("GET", path.replace(str(H.PATH_SENTINEL), v), [], who, None,
+                                               endpoint=rule.endpoint)
+                                self.ch.count("path-int requests")
+                                if res.timed_out:
+                                    timeouts += 1
+                                    hung.add((rule.endpoint, name))
+        finally:
+            self._limit = H.TIME_LIMIT
+
     def _set_stored(self, directory, defaults):
         with self.app.ctx() as m:
             st = m.Stream.get(directory=directory)
@@ -1429,7 +1498,8 @@ def ch_fuzz_http(ctx, stop_after=None) -> Channel:
         before = c16_http.pools(fz.app)
         fz.reference_check()                     # the first answers
         phases = [("clock_sweep", lambda: (fz.clock_sweep(clock, ctx.scale(2, 150)), fz.login())),
-                  ("regressions", fz.regressions), ("boundary_sweep", fz.boundary_sweep),
+                  ("regressions", fz.regressions), ("path_integers", fz.path_integers),
+                  ("boundary_sweep", fz.boundary_sweep),
                   ("long_strings", fz.long_strings), ("sweep", fz.sweep), ("every_option", fz.every_option),
                   ("random_gets", lambda: fz.random_gets(ctx.scale(450, 30000))),
                   ("stored_defaults", lambda: fz.stored_defaults(ctx.scale(12, 300))),
@@ -1451,6 +1521,8 @@ def ch_fuzz_http(ctx, stop_after=None) -> Channel:
             if stop_after == name:
                 break
         ch.count("seconds", int(time.perf_counter() - t0))
+    # a request that did not finish is reported before the 5xx answers
+    ch.oracle_failures.sort(key=lambda f: 0 if f.get("status") == 0 else 1)
     ch.sample({"routes": len(fz.rules), "option_names": len(fz.names), "streams": fz.P["streams"],
                "multi_period": fz.P["mps"]}, limit=1)
     return ch
